@@ -176,6 +176,11 @@ class Lockstep:
 
                 vclock.advance(float(op[1]))
                 self.stats["steps:clock"] += 1
+            elif kind == "rebind-children":
+                # the application replaces a node's public `children` attribute by a plain dict with the same content
+                node = self.gateway.nodes.get(op[1])
+                if node is not None:
+                    node.children = dict(node.children)
             elif kind == "rebind":
                 # the application binds a NEW dict with the same content to the public `nodes` attribute (restoring a backup,
                 # filtering the registry): the registry is whatever gateway.nodes names now
@@ -436,7 +441,11 @@ class Lockstep:
             return
         info = exc_info(value)
         if not info["library"]:
-            return  # already reported under C03
+            # already reported under C03; where the line refers to a node / child that is not there it also is not the
+            # "error that names that node or child" of C04
+            if exp.error_id is not None:
+                self.bad("C04", "missing-ref-foreign-error", f"{line!r:.80}: raised {info['class']} instead of {exp.error}")
+            return
         if exp.error and info["class"] not in exp.error:
             if "UnsupportedMessageError" in (info["class"], *exp.error):
                 self.bad("C05", "unsupported-mismatch", f"{line!r:.80}: raised {info['class']}, expected {exp.error}")
